@@ -24,7 +24,8 @@ for _i in range(32):
 
 RULE = ("cases = mixed histories (dataset create/delete/rename/public namespaces, entity batches with references and deletes, the "
         "HTTP full-sync protocol, job add/pause/resume/delete/run of a dataset-to-dataset copy job, client registration and ACLs, "
-        "login providers) with restart ops after every op, at random positions or at one position; each is also run without its "
+        "login providers) with restart ops after every op, at random positions, at one position, or - one case per position - at every "
+        "position of one history; each is also run without its "
         "restarts; a case is non-trivial when a restart happens after at least two state-changing ops of two different "
         "subsystems; distinct = distinct op lists")
 TRUSTED = [
